@@ -27,7 +27,7 @@ META = dict(
     ),
     outside=["total deltas other than the pinned boundary values (all individual deltas stay symbolic)", "two counters of one CPU decreasing at once", "GIL-level races inside one source line",
              "more than 2 CPUs (the per-CPU code is a loop over lines; units are independent)"],
-    labels=["cpu_times-fields", "cpu_percent-formula", "times_percent-in-range", "times_percent-sum-100", "thread-own-baseline", "negative-interval-ValueError",
+    labels=["cpu_times-fields", "cpu_percent-formula", "times_percent-in-range", "times_percent-sum-100", "times_percent-subsecond-correct-or-known-scale", "thread-own-baseline", "negative-interval-ValueError",
             "blocking-sleeps-interval", "proc-cpu_percent-formula", "proc-first-call-zero"],
 )
 
@@ -113,9 +113,16 @@ def percent(ctx, nf, T, unit):
             ctx.prove(ctx.all([ctx.eq(tot, 0), ctx.eq(pc, 0)]), "cpu_percent-zero-total")
         ctx.prove(ctx.all([v >= 0 for v in tp] + [v <= 100 for v in tp]), "times_percent-in-range")
         # each share is the field's own share of the total (before rounding): |share - 100*d/tot| <= 0.05
-        ctx.prove(ctx.implies(tot > 0, ctx.all([ctx.all([(v * tot - 100 * dj) * 20 <= tot, (v * tot - 100 * dj) * 20 >= -tot]) for v, dj in zip(tp, d)])), "times_percent-field-share")
+        sub = "[subsecond]" if 0 < T < CLK else ""      # known finding C07-times-percent-subsecond: total below one second
+        share_ok = ctx.all([ctx.all([(v * tot - 100 * dj) * 20 <= tot, (v * tot - 100 * dj) * 20 >= -tot]) for v, dj in zip(tp, d)])
+        ctx.prove(ctx.implies(tot > 0, share_ok), "times_percent-field-share" + sub)
         s = ctx.sum(list(tp)[:8])
-        ctx.prove(ctx.implies(tot > 0, ctx.all([s * 20 >= 2000 - nf, s * 20 <= 2000 + nf])), "times_percent-sum-100")
+        ctx.prove(ctx.implies(tot > 0, ctx.all([s * 20 >= 2000 - nf, s * 20 <= 2000 + nf])), "times_percent-sum-100" + sub)
+        if sub:
+            # anything other than the correct shares or the known scale (each share = the field's delta in ticks, since
+            # 100/max(1, seconds) = 100 and ticks/100*100 = ticks) is a new violation
+            known = ctx.all([ctx.all([(v - dj) * 20 <= 1, (v - dj) * 20 >= -1]) for v, dj in zip(tp, d)])
+            ctx.prove(ctx.any([share_ok, known]), "times_percent-subsecond-correct-or-known-scale")
     else:
         ctx.prove(0 <= pc <= 100, "cpu_percent-in-range")
         if tot > 0:
@@ -123,8 +130,12 @@ def percent(ctx, nf, T, unit):
         else:
             ctx.prove(pc == 0.0, "cpu_percent-zero-total")
         ctx.prove(all(0 <= v <= 100 for v in tp), "times_percent-in-range")
-        ctx.prove(tot == 0 or all(abs(v - 100.0 * dj / tot) <= 0.05 + 1e-9 for v, dj in zip(tp, d)), "times_percent-field-share")
-        ctx.prove(tot == 0 or abs(sum(list(tp)[:8]) - 100) <= nf * 0.05 + 1e-9, "times_percent-sum-100")
+        sub = "[subsecond]" if 0 < T < CLK else ""
+        share_ok = tot == 0 or all(abs(v - 100.0 * dj / tot) <= 0.05 + 1e-9 for v, dj in zip(tp, d))
+        ctx.prove(share_ok, "times_percent-field-share" + sub)
+        ctx.prove(tot == 0 or abs(sum(list(tp)[:8]) - 100) <= nf * 0.05 + 1e-9, "times_percent-sum-100" + sub)
+        if sub:
+            ctx.prove(share_ok or all(abs(v - dj) <= 0.05 + 1e-9 for v, dj in zip(tp, d)), "times_percent-subsecond-correct-or-known-scale")
 
 
 class _Thr:
